@@ -221,7 +221,8 @@ def shape_problem(res, inp, is_list):
 bools = st.booleans()
 grades = st.sampled_from([1, 1, 1.0, 0.5, 0, 0.1, 1 / 3, 0.7, 0, 1, 0.5, 1])
 msgs = st.one_of(st.just(''), st.integers(0, 40).map(lambda k: 'zqm%d' % k),
-                 st.sampled_from(['zqm two\nlines', 'zqm <b>html</b>', 'zqm é中']))
+                 st.sampled_from(['zqm two\nlines', 'zqm <b>html</b>', 'zqm é中', 'zqm \\(\\frac{1}{2}\\)', 'zqm {0} {x}',
+                                  'zqm } {', 'zqm 50% %s %d']))
 JUNK = ['', ' ', 'zzz', '0', ',', ';', '()', 'é中文', '١٢٣', 'zqa,', '1 2', '\t', 'x',
         '[', 'zq', ' ', '1e400', 'None', '-', 'a\nb']
 junk = st.one_of(st.sampled_from(JUNK), st.text(max_size=6))
